@@ -124,16 +124,28 @@ def candidates(repo, clsname):
                         v = _const(b_)
                         if v is not None and all(isinstance(x, str) for x in v):
                             add(a_.id, v)
-    # keep values of the default's kind (a string option is replaced by string options, ...) plus None when compared
+    # inside the constructors of the lineage the parameters are plain names: `verbose == 'tqdm'`, `n_jobs not in (None, 1)`
+    for c in info.lineage(table):
+        m = c.method("__init__")
+        if m is None:
+            continue
+        for n in ast.walk(m):
+            if isinstance(n, ast.Compare) and len(n.ops) == 1:
+                l, r = n.left, n.comparators[0]
+                for a_, b_ in ((l, r), (r, l)):
+                    if isinstance(a_, ast.Name) and a_.id in params:
+                        v = _const(b_)
+                        if v is not None:
+                            add(a_.id, v)
+                            if isinstance(n.ops[0], (ast.NotIn, ast.NotEq)):
+                                add(a_.id, [x + 1 for x in v if isinstance(x, int) and not isinstance(x, bool)])
+    # every value but the default itself; a string option may replace a boolean flag (`verbose='tqdm'`), so the kinds
+    # are not filtered except that numbers do not replace strings
     for p in list(out):
         d = defaults.get(p, "<no default>")
         vals = [v for v in out[p] if not (type(v) is type(d) and v == d)]
-        if isinstance(d, bool):
-            vals = [v for v in vals if isinstance(v, bool)]
-        elif isinstance(d, str):
+        if isinstance(d, str):
             vals = [v for v in vals if isinstance(v, str) or v is None]
-        elif isinstance(d, (int, float)):
-            vals = [v for v in vals if isinstance(v, (int, float)) and not isinstance(v, bool) or v is None]
         out[p] = vals[:6]
         if not out[p]:
             del out[p]
